@@ -913,3 +913,16 @@ Proof.
   unfold inv_checkb. intro H. apply Bool.andb_true_iff in H. destruct H as [H H3]. apply Bool.andb_true_iff in H. destruct H as [H1 H2].
   unfold Inv, ids. split; [apply nodupZb_sound; exact H1|]. split; [apply Qc_eq_bool_correct; exact H2|apply Qc_eq_bool_correct; exact H3].
 Qed.
+
+(* ------------------------------------------------------------------ the published rule reproduces the reported value at EVERY stop *)
+Lemma vsum_sumQ l : vsum Qc 0 Qcplus l = sumQ l.
+Proof. induction l as [|x l IH]; cbn; [reflexivity|]. rewrite IH. reflexivity. Qed.
+
+Theorem rule_reproduces_reported_every_stop {P} (f : P -> Qc) stops : forall s,
+  Forall (fun p => fst p = snd p) (dw_history f stops s).
+Proof.
+  induction stops as [|sch r IH]; intro s; cbn [dw_history]; constructor; [|apply IH].
+  cbn [fst snd].
+  rewrite (proj1 (evaluate_dw_total Qc 0 Qcplus Qcopp Qcplus_assoc Qcplus_comm Qcplus_0_l (contributions f sch) s)).
+  rewrite vsum_sumQ, combined_rule_linear. reflexivity.
+Qed.
